@@ -44,7 +44,7 @@ theorem szL_sortValues (xs ys : List J) (h : sortValues xs = .ok ys) : szL ys = 
     · split at h
       · injection h with h; subst h; exact szL_isort _ _
       · injection h with h; subst h; exact szL_isort _ _
-      · injection h with h; subst h; rfl
+      · injection h with h; subst h; exact szL_isort _ _
 
 theorem picast_str (x : String) : picast (.str x) = .v ∨ ∃ y, picast (.str x) = .s y := by
   simp only [picast]
